@@ -21,7 +21,7 @@ type C06Case struct {
 }
 
 func genC06(t *rapid.T) C06Case {
-	lim := tierLimits()
+	lim := genLimits(t)
 	full, part := genMapCfg(t, "full"), genMapCfg(t, "part")
 	full.Full, part.Full = true, false
 	c := C06Case{Cfgs: []Cfg{{Kind: "pollard"}, full, part}}
